@@ -812,6 +812,18 @@ func writeEvidence(path, prop, tier, level string, batch uint64, workers int, lr
 		"determinism_selftest":   determ,
 		"legs":                   legsOut,
 	}
+	if v, ok := counters["fault_points"]; ok {
+		cov["fault_points_enumerated"] = v
+		cov["fault_points_note"] = "number of (fault position x variant) cases executed; within a fault family every position of a stream of at most 320 bytes is enumerated, longer streams are boundary-biased-sampled (probes *_sweep_enumerated count the enumerated sweeps)"
+	}
+	var unrep []string
+	extra := 0
+	for _, lr := range lrs {
+		unrep = append(unrep, lr.unreproduced...)
+		extra += lr.extraDeaths
+	}
+	cov["unreproduced_reports"] = unrep
+	cov["further_deaths_same_invariant"] = extra
 	ev := map[string]interface{}{
 		"property_id": prop,
 		"tier":        tier,
